@@ -1,0 +1,7 @@
+//go:build !verif
+
+package dawn
+
+// verifPoint marks a point of interest for the verification harness under /verif.
+// Without the verif build tag it is an empty function.
+func verifPoint(name string, arg any) {}
